@@ -80,6 +80,13 @@ def gen_cases(rng, tier):
         cases.append({'kind': 'unitary', 'norb': norb, 'n': na + nb, 'sz': na - nb, 'rec': rec,
                       'scale': rng.choice([1.0, 1e3, 1e6]), 't': rng.choice([40.0, 1e3, 12345.678, -7e4]),
                       'seed': rng.randrange(10 ** 6), 'steps': rng.choice([1, 25])})
+    # the exact routes on sectors whose string counts cross the batch sizes of the C kernels (450 columns per batch; 462 and
+    # 495 strings of one spin, on either spin), moderate times: unitarity, and t followed by -t returns the input
+    big = [(11, 1, 5), (11, 5, 1), (12, 4, 1), (12, 1, 4)]
+    for k, (norb, na, nb) in enumerate(big if tier != 'quick' else big[:3]):
+        for rec in (('quad', 'dc2', 'diag') if tier != 'quick' else ('quad', ['dc2', 'diag'][k % 2])):
+            cases.append({'kind': 'unitary', 'norb': norb, 'n': na + nb, 'sz': na - nb, 'rec': rec, 'scale': 1.0,
+                          't': rng.choice([0.7, 3.0]), 'seed': rng.randrange(10 ** 6), 'steps': 1, 'undo': True})
     return cases
 
 
@@ -140,7 +147,11 @@ def run_impl(case, mode):
         n0 = float(wfn.norm())
         for _ in range(case['steps']):
             w = w.time_evolve(case['t'] / case['steps'], ham)
-        return {'norm': float(w.norm()) / n0, 'finite': bool(all(numpy.isfinite(w.sector(k).coeff).all() for k in w.sectors()))}
+        res = {'norm': float(w.norm()) / n0, 'finite': bool(all(numpy.isfinite(w.sector(k).coeff).all() for k in w.sectors()))}
+        if case.get('undo'):
+            back = w.time_evolve(-case['t'], ham)
+            res['undo_err'] = float((back - wfn).norm()) / n0
+        return res
     raise ValueError(case['kind'])
 
 
@@ -224,6 +235,9 @@ def compare(case, got, exp, mode):
     if case['kind'] == 'unitary':
         if not got['finite'] or abs(got['norm'] - 1.0) > 1e-9:
             bad.append('exact route %s lost unitarity at t=%g, scale %g, %d steps: norm %r' % (case['rec'], case['t'], case['scale'], case['steps'], got['norm']))
+        if got.get('undo_err', 0.0) > 1e-9:
+            bad.append('exact route %s on (norb, n, sz) = (%d, %d, %d): evolving by t = %g and then by -t misses the input by %.3g' %
+                       (case['rec'], case['norb'], case['n'], case['sz'], case['t'], got['undo_err']))
         return bad
     x = abs(case['t']) * case['L1']
     if case['algo'] == 'taylor' and not exp.get('near'):
